@@ -11,7 +11,7 @@ RULE = ("(plus seeded random requests of 1..40 items with padding, judged by the
         "MC: AdminPublish.tla, every batch of 1..MaxLen abstract items (MaxLen 3 quick / 4 thorough) in every frame (policy x path x "
         "scope x request-level class x padding x queue situation) as a state, all-or-nothing invariants; GEN: TLC prints the "
         "configuration tables and the selected batches (all pairs of kinds, every kind at every position, 1000 / 1001 items, "
-        "near-full queues); every row executed through the production admin handlers (app.VerifBoot) on the memory and the "
+        "near-full queues, batches of 251 .. 1000 items into queues with room for a part of them); every row executed through the production admin handlers (app.VerifBoot) on the memory and the "
         "SQLite backend; TV: every request validated by TLC (AdminPublishTrace): refused <=> offending item or request-level "
         "problem or queue full, refused => dump unchanged and the error names an admissible item with the status / code of its "
         "reason, accepted => exactly the batch was added in ingress shape. distinct_nontrivial = validated requests.")
@@ -98,7 +98,7 @@ def random_rows(seed, table, n):
         kinds = sorted(table["gkinds"] if path == "global" else table["skinds"])
         fl = "ok_t" if scope == "app1/ep2" else "ok"
         fr = {"pol": rng.choice(pols) if rng.random() < 0.4 else "P0", "path": path, "scope": scope,
-              "req": rng.choice(reqs) if rng.random() < 0.1 else "ok", "pad": 0, "tail": 0, "lim": "none", "q": "base", "sel": "rand", "maxlen": 40}
+              "req": rng.choice(reqs) if rng.random() < 0.1 else "ok", "pad": 0, "tail": 0, "lim": "none", "q": "base", "sel": "rand", "maxlen": 40, "depth": 0, "room": 0}
         r = rng.random()
         if r < 0.15:
             fr["pad"], fr["tail"] = rng.randint(0, 60), rng.randint(0, 60)
@@ -107,6 +107,7 @@ def random_rows(seed, table, n):
         length = rng.choice([1, 2, 3, 5, 8, 13, 21, 40]) if rng.random() < 0.5 else rng.randint(1, 40)
         if rng.random() < 0.12:
             fr["lim"], fr["q"] = rng.choice(["reject", "drop_oldest"]), rng.choice(["near_full", "near_full_leased"])
+            fr["depth"], fr["room"] = 8, 1
             fr["pad"] = fr["tail"] = 0
             length = rng.randint(1, 5)
         items = [fl] * length
@@ -135,7 +136,7 @@ def run(ctx):
     ctx.count("random_rows", len(rnd))
     rows = rows + rnd
     fam.write_rows(rows_file, rows)
-    for s in ("full", "light", "req", "pad", "queue", "rand"):
+    for s in ("full", "light", "req", "pad", "queue", "bigq", "rand"):
         ctx.count("gen_rows_" + s, sum(1 for x in rows if x["fr"]["sel"] == s))
     shards = 16 if ctx.quick else 48
     out = os.path.join(ctx.shm, "trace-pub")
@@ -189,6 +190,15 @@ def run(ctx):
             for acc in ("accepted", "refused"):
                 if c.get("lim.%s.%s.%s" % (lim, q, acc), 0) == 0:
                     missing.append("queue %s/%s %s" % (lim, q, acc))
+    for be in ("memory", "sqlite"):
+        for path in ("global", "scoped"):
+            if c.get("bigfull.%s.%s" % (be, path), 0) == 0:
+                missing.append("batch of more than 250 items refused for queue full on %s/%s" % (be, path))
+            for lim in ("reject", "drop_oldest"):
+                if c.get("bigq.%s.%s.%s.refused" % (be, path, lim), 0) == 0:
+                    missing.append("large batch into a near-full %s queue on %s/%s" % (lim, be, path))
+    if c.get("sel.bigq.accepted", 0) == 0:
+        missing.append("large batch that fits a near-full queue")
     if c.get("code.queue_full", 0) == 0:
         missing.append("queue_full refusal")
     if c.get("pad.1000.accepted", 0) == 0 or c.get("pad.1001.refused", 0) == 0 or c.get("pad.1000.refused", 0) == 0:
@@ -203,7 +213,8 @@ def run(ctx):
             raise vf.Infra("vacuous run, not exercised: " + "; ".join(missing[:20]))
         ctx.notes.append("not exercised (run has violations): " + "; ".join(missing[:20]))
     for k in ("backend.memory.accepted", "backend.memory.refused", "backend.sqlite.accepted", "backend.sqlite.refused", "indexed",
-              "code.queue_full", "evicted.memory", "evicted.sqlite", "pad.1000.accepted", "pad.1001.refused", "sel.rand.accepted", "sel.rand.refused"):
+              "code.queue_full", "evicted.memory", "evicted.sqlite", "pad.1000.accepted", "pad.1001.refused", "sel.rand.accepted", "sel.rand.refused", "sel.bigq.accepted", "sel.bigq.refused",
+              "bigfull.memory.global", "bigfull.memory.scoped", "bigfull.sqlite.global", "bigfull.sqlite.scoped"):
         ctx.count(k, c.get(k, 0))
     ctx.assumptions += [
         "memory and SQLite backends (no PostgreSQL server in the sandbox); no dispatcher runs, so messages published to deliver routes stay queued",
